@@ -209,6 +209,7 @@ ATOMS = {
     "switch_string": (False, "switch s {\ncase \"a\":\nx = 1\ncase \"b\", \"c\":\nx = 2\n}"),
     "typeswitch": (True, "switch v@ := i.(type) {\ncase nil:\nx = 0\ncase int:\nx = v@\ncase string, []int:\nsink(v@)\ncase I:\nx = v@.Val()\n{{HOLE}}\ncase error:\nerr = v@\ndefault:\nsink(v@)\n}\nswitch i.(type) {\ncase *T:\nx++\n}"),
     "select": (True, "select {\ncase v@ := <-ch:\nx = v@\ncase v@, ok@ := <-ch:\nsink(v@, ok@)\ncase ch <- x:\n{{HOLE}}\ndefault:\nx++\n}"),
+    "select_empty": (False, "if x == 66666 {\nselect {}\n}"),
     "select_block": (False, "go func() { ch <- 1 }()\nselect {\ncase <-ch:\n}"),
     "labeled": (True, "L@:\nfor k@ := 0; k@ < 3; k@++ {\nfor {\nif k@ == 1 {\ncontinue L@\n}\n{{HOLE}}\nbreak L@\n}\n}"),
     "goto": (False, "{\nn@ := 0\nG@:\nn@++\nif n@ < 3 {\ngoto G@\n}\nsink(n@)\n}"),
@@ -229,7 +230,7 @@ ATOMS = {
     "conversions": (False, "fl = float64(x)\nx = int(fl)\nu = uint8(x)\ns = string(rune(x))\nbs@ := []byte(s)\ns = string(bs@)\nrs@ := []rune(s)\ns = string(rs@)\nmi@ := MyInt(x)\nx = int(mi@)\nvar up@ unsafe.Pointer = unsafe.Pointer(p)\np = (*T)(up@)\nsink(uintptr(up@))"),
     "struct_conversion": (False, "s2@ := S2{A: x, B: s}\ns3@ := S3(s2@)\nps@ := (*S3)(&s2@)\nsink(s3@, ps@)"),
     "slice_array_conv": (False, "if len(xs) >= 4 {\na@ := [4]int(xs)\npa@ := (*[4]int)(xs)\nsink(a@, pa@)\n}"),
-    "composite_struct": (False, "v@ := T{A: x, B: s}\nw@ := &T{Emb: Emb{Z: 1}, P: p}\nz@ := struct{ a, b int }{x, 2}\nvar zero@ T\nsink(v@, w@, z@, zero@, S2{}, Emb{x})"),
+    "composite_struct": (False, "v@ := T{A: x, B: s}\nw@ := &T{Emb: Emb{Z: 1}, P: p}\nz@ := struct{ a, b int }{x, 2}\nvar zero@ T\nsink(v@, w@, z@, zero@, S2{}, Emb{x}, S2{A: 1, B: \"k\"})"),
     "composite_seq": (False, "a@ := [...]int{1, 2, x}\nb@ := []string{\"a\", s}\nc@ := [4]int{2: x}\nd@ := [][]int{{1}, {x, 2}}\ne@ := []*T{{A: 1}, {A: x}}\nf@ := []T{{A: 1}}\nsink(a@, b@, c@, d@, e@, f@, []int{})"),
     "composite_map": (False, "a@ := map[string]int{\"a\": 1, s: x}\nb@ := map[S2]string{{A: 1}: \"x\"}\nc@ := map[string][]int{\"k\": {1, 2}}\nsink(a@, b@, c@, map[int]bool{})"),
     "index": (False, "x = xs[0] + arr[1] + m[\"k\"] + int(s[0])\nv@, ok@ := m[s]\nxs[1] = x\narr[2] = x\nm[s] = x\npa@ := &arr\nx = pa@[3]\nsink(v@, ok@, (*pa@)[0])"),
